@@ -130,5 +130,5 @@ def run(tier, seed):
                      assumptions=['closed-form CDFs evaluated in float64 with log1p/expm1 tail forms', 'sup|x f(x)| is taken over the 2^24 reachable outputs',
                                   'the (at most 16) first words that lead to a redraw are pushed through with the redraw and counted'])
     if len(judged) < 6 * (6 if not th else 8):
-        return 2
+        return 1 if rc == 1 else 2  # a violation outranks a missed coverage floor
     return rc
